@@ -219,7 +219,9 @@ def run_case(case, ctx):
         # a class override answered with the exact log-determinant although CG ran underneath: also what the property allows
         ctx.stat("exact_value_on_cg_path")
         ctx.ok(query + ".logdet", key, n >= 2)
-    elif not err <= 1e-8 * max(kappa, 1.0):
+    # CG keeps iterating to the tridiagonalization budget after it has converged; its coefficients are then formed from residuals at
+    # rounding level, which perturbs the quadrature by up to ~1e-5 once n reaches 10-12 (measured); truncation errors are >= 1e-3
+    elif not err <= max(1e-8 * max(kappa, 1.0), 1e-4 if n >= 9 else 0.0):
         ctx.fail(query + ".logdet_quadrature", "value", err=err,
                  detail=f"returned {ld.reshape(-1)[0].item():.6f} quadrature-of-probes {est.reshape(-1)[0].item():.6f} true {true_ld.reshape(-1)[0].item():.6f} (m={m})",
                  **dict(kw, tags=set(kw["tags"]) | ({"precond"} if P is not None else set())))
